@@ -108,7 +108,11 @@ def base_ns(draw=None, probes=0, hooks=False):
                 dict(k='var', ref=dict(r='name', n='ta'), opts=[]),
                 dict(k='var', ref=dict(r='name', n='fa'), opts=[]),
                 dict(k='text', s=')')]),
-            URL='http://host/root/obj', RESPONSE=dict(t='response'))
+            URL='http://host/root/obj', RESPONSE=dict(t='response'),
+            # callables that grow / shrink a mapping of the namespace stack
+            mua=dict(t='mutator', id='a', mode='add'),
+            mud=dict(t='mutator', id='d', mode='del'),
+            spare1=1, spare2=2, spare3=3)
     for i in range(probes):
         ns['p%d' % i] = dict(t='probe', id=i)
     return ns
@@ -379,6 +383,8 @@ def node_of(cfg, k, depth, scope):
                         opts=[list(o) for o in opts])
         inner = body(cfg, d, scope + ('va', 'xi'))
         menu = [
+            st.just(vn('mua')), st.just(vn('mud')),
+            st.just(dict(k='call', ref=dict(r='name', n='mua'))),
             st.just(vn('hv')), st.just(vn('hv', ('fmt', 'shout'))),
             st.just(vn('hv', ('url', None))),
             st.just(vn('hv', ('upper', None), ('size', '1'))),
